@@ -9,8 +9,9 @@ import Cqos.Props.C15
   * with a divider that obeys the sum rule the error channel yields no error;
   * the closing order (output before err, nothing before `loop` returns) is read off the
     regenerated defer table (facts, C19).
-  Promptness in wall-clock terms is a runtime matter (partial); the bounded-step exit is
-  shown for the stop path in C16 and exercised by the stepper's `terminate` family.
+  Promptness: Cqos/Props/C07p.lean (bounded number of the discipline's own steps from every
+  reachable state in which "that is the case"); the wall-clock length of a step is a runtime
+  matter (partial).
 -/
 namespace Cqos.C07
 
